@@ -212,6 +212,13 @@ static std::vector<Scenario> make_scenarios() {
     v.push_back(Scenario{"cif_container_get_value(iterator with a pending update open)", 1 | 2 | 2048, false, false, [](S &s, const Params &p) -> int { (void) s; (void) p;  return cif_container_get_value(s.blk, U(u"_S1"), (cif_value_tp **) &s.out_ptr);  }, [](S &s) { (void) s;  cif_value_free((cif_value_tp *) s.out_ptr);  }});
     v.push_back(Scenario{"cif_container_get_all_frames(iterator with a pending update open)", 1 | 2 | 2048, false, false, [](S &s, const Params &p) -> int { (void) s; (void) p;  return cif_container_get_all_frames(s.blk, (cif_frame_tp ***) &s.out_ptr);  }, [](S &s) { (void) s;  free_handles((void **) s.out_ptr, fc);  }});
     v.push_back(Scenario{"cif_get_all_blocks(iterator with a pending update open)", 1 | 2 | 2048, false, false, [](S &s, const Params &p) -> int { (void) s; (void) p;  return cif_get_all_blocks(s.cif, (cif_block_tp ***) &s.out_ptr);  }, [](S &s) { (void) s;  free_handles((void **) s.out_ptr, fc);  }});
+    // the first use of a read function on a CIF: its SQL statement is prepared inside the call (needs bit 4096: no snapshot of the CIF is
+    // taken beforehand -- the dump would prepare the statement -- the "before" state comes from an identical twin fixture)
+    v.push_back(Scenario{"cif_container_get_all_loops(first use on this CIF)", 1 | 4096, false, false, [](S &s, const Params &p) -> int { (void) s; (void) p;  return cif_container_get_all_loops(s.blk, (cif_loop_tp ***) &s.out_ptr);  }, [](S &s) { (void) s;  free_handles((void **) s.out_ptr, fl);  }});
+    v.push_back(Scenario{"cif_container_get_all_frames(first use on this CIF)", 1 | 4096, false, false, [](S &s, const Params &p) -> int { (void) s; (void) p;  return cif_container_get_all_frames(s.blk, (cif_frame_tp ***) &s.out_ptr);  }, [](S &s) { (void) s;  free_handles((void **) s.out_ptr, fc);  }});
+    v.push_back(Scenario{"cif_get_all_blocks(first use on this CIF)", 1 | 4096, false, false, [](S &s, const Params &p) -> int { (void) s; (void) p;  return cif_get_all_blocks(s.cif, (cif_block_tp ***) &s.out_ptr);  }, [](S &s) { (void) s;  free_handles((void **) s.out_ptr, fc);  }});
+    v.push_back(Scenario{"cif_loop_get_names(first use on this CIF)", 1 | 4096, false, false, [](S &s, const Params &p) -> int { (void) s; (void) p;  return cif_loop_get_names(s.loop, (UChar ***) &s.out_ptr);  }, [](S &s) { (void) s;  if (s.out_ptr) { for (UChar **q = (UChar **) s.out_ptr; *q; q++) cm::ufree(*q); cm::ufree(s.out_ptr); }  }});
+    v.push_back(Scenario{"cif_loop_get_packets(first use on this CIF)", 1 | 4096, false, false, [](S &s, const Params &p) -> int { (void) p;  int rc = cif_loop_get_packets(s.loop, &s.it); return rc;  }, [](S &s) { (void) s;  }});
     return v;
 }
 static const std::vector<Scenario> &scenarios() { static std::vector<Scenario> v = make_scenarios(); return v; }
@@ -309,7 +316,9 @@ static std::string run_case(const CaseFile &c) {
         if (only_k && k != only_k) break;
         last_k = k;
         S s; if (!prepare(s, sc, p)) { msg = "fixture could not be rebuilt"; break; }
-        std::string pre = (sc.needs & 2) ? std::string() : snapshot(s);
+        std::string pre;
+        if (sc.needs & 4096) { S twin; if (!prepare(twin, sc, p)) { msg = "fixture could not be rebuilt"; break; } pre = snapshot(twin); }
+        else if (!(sc.needs & 2)) pre = snapshot(s);
         if (sqlite_side) { g_sq_count = 0; g_sq_fired = false; g_sq_fail_at = k; } else verif_fail_at(k);
         int rc = sc.call(s, p);
         bool fired;
@@ -350,6 +359,13 @@ static std::string run_case(const CaseFile &c) {
                 std::string postr = snapshot(s);
                 if (rr != r0) msg = at + "after the failure the same call, repeated with memory available, returned " + cm::code_name(rr);
                 else if (cif_part(postr) != cif_part(post0)) msg = at + "the retried call succeeded but the managed CIF differs from the fault-free run\n--- fault-free\n" + cif_part(post0) + "\n--- retried\n" + cif_part(postr);
+            }
+            // 4. the CIF is still fully usable: an unrelated modifying call (which needs a top-level transaction of its own) works --
+            //    it does not when the failed call left a transaction or savepoint open
+            if (msg.empty() && s.cif) {
+                cif_block_tp *cb = nullptr; int cr = cif_create_block(s.cif, U(u"canary_zz"), &cb);
+                if (cr == CIF_OK) cr = cif_container_destroy(cb); else if (cb) cif_container_free(cb);
+                if (cr != CIF_OK) msg = at + "failed with " + cm::code_name(rc) + "; afterwards creating and destroying an unrelated block fails with " + cm::code_name(cr) + " (a transaction left open?)";
             }
         } else {
             // iterator scenarios: the iterator (if it still exists) can be aborted and the CIF read afterwards
